@@ -85,7 +85,7 @@ def _check_own(ctx):
         for fname, fty in fields:
             for t_fn in prog.find(name=m, self_adt=fty, pred=lambda f: f.impl_trait is None):
                 call_blocks += [b for b, t in calls_to(prog, fn, target_fn=t_fn)]
-        clears = [b for b, v in fp.dirty_stores(fn) if v is False]
+        clears = [b for b, v in fp.dirty_stores(fn, prog) if v is False]
         err = fn.error_blocks()
         for b in clears:
             ok = len(call_blocks) >= len(fields) >= 3 and all(cb != b and fn.dominates(cb, b) for cb in call_blocks) and b not in err
@@ -158,4 +158,4 @@ def _check_own(ctx):
 def check(ctx):
     _check_own(ctx)
     from .engine import import_rules
-    import_rules(ctx, "c03", {"dirty-raised"})
+    import_rules(ctx, "c03", {"dirty-raised", "sync-chain"})
